@@ -1136,6 +1136,40 @@ pub fn strategy() -> BoxedStrategy<Scenario> {
     strategy_with(0, false, 18)
 }
 
+/// Clamp a byte-decoded scenario into the generator's domain (fuzz tier).
+pub fn fuzz_sanitize(sc: &mut Scenario) -> bool {
+    sc.strict = 0;
+    sc.probe = None;
+    sc.sync_pct = [0u8, 0, 0, 30, 30][(sc.sync_pct % 5) as usize];
+    sc.block = [0u8, 0, 0, 2, 3][(sc.block % 5) as usize];
+    let kind = (sc.seed >> 32) as u8 % 4;
+    sc.seed %= 1000;
+    sc.ops.truncate(17);
+    for st in sc.ops.iter_mut() {
+        fh::sanitize_step(st);
+    }
+    if sc.ops.len() < 2 {
+        return false;
+    }
+    let mut pre = prologue(kind, 0);
+    let npre = pre.len();
+    pre.append(&mut sc.ops);
+    sc.ops = pre;
+    let n = sc.ops.len();
+    if let Mode::Cycles(pts) = &mut sc.mode {
+        pts.truncate(3);
+        for p in pts.iter_mut() {
+            *p = (npre + 1 + (*p as usize) % (n - npre)) as u8;
+        }
+        pts.sort();
+        pts.dedup();
+        if pts.is_empty() {
+            sc.mode = Mode::Prefixes;
+        }
+    }
+    true
+}
+
 // ---------------------------------------------------------------------------
 // probes (durability-specific findings only; C10 root causes are referenced
 // by the taints above)
